@@ -9,6 +9,7 @@ package orchestrator
 //verif:def txnOpen() = succeeded("DB.NewTransaction") && called("rollback.(*R).AppendPure") && !called("Transaction.Commit") && !called("rollback.(*R).Skip")
 
 //verif:func (*ConnectorOrchestrator).Create(c, ctx, t, plugin, pipelineID, config) (conn, err)
+//verif:let pl = result_of("PipelineService.Get", 0)
 //verif:call-preserves (*ConnectorOrchestrator).Validate : all(pl) because "Validate only inspects the connector plugin's specification and the given config; it has no access path to the pipeline instance"
 //verif:call[only-api-provisioned-and-stopped] ConnectorService.Create requires txnOpen() && succeeded("PipelineService.Get") && pl.ProvisionedBy == ProvisionTypeAPI && result_of("pipeline.(*Instance).GetStatus", 0) != StatusRunning && succeeded("(*ConnectorOrchestrator).Validate")
 //verif:call[reference-after-create-with-undo-registered] PipelineService.AddConnector requires txnOpen() && succeeded("ConnectorService.Create") && count("rollback.(*R).Append") == 1 && arg1 == pl.ID && arg2 == result_of("ConnectorService.Create", 0).ID
@@ -24,7 +25,7 @@ package orchestrator
 //verif:call[undo-removes-the-added-reference] PipelineService.RemoveConnector requires arg1 == deref(pl).ID && arg2 == deref(conn).ID
 
 //verif:func (*ProcessorOrchestrator).Update(p, ctx, id, plugin, cfg) (proc, err)
-//verif:call[only-api-provisioned-and-stopped] ProcessorService.Update requires txnOpen() && succeeded("ProcessorService.Get") && result_of("ProcessorService.Get", 0).ProvisionedBy == ProvisionTypeAPI && succeeded("(*ProcessorOrchestrator).getProcessorsPipeline") && result_of("pipeline.(*Instance).GetStatus", 0) != StatusRunning && oldPlugin == result_of("ProcessorService.Get", 0).Plugin && oldConfig == result_of("ProcessorService.Get", 0).Config
+//verif:call[only-api-provisioned-and-stopped] ProcessorService.Update requires txnOpen() && succeeded("ProcessorService.Get") && result_of("ProcessorService.Get", 0).ProvisionedBy == ProvisionTypeAPI && succeeded("(*ProcessorOrchestrator).getProcessorsPipeline") && result_of("pipeline.(*Instance).GetStatus", 0) != StatusRunning
 //verif:call[commit-after-update-with-undo] Transaction.Commit requires succeeded("ProcessorService.Update") && count("rollback.(*R).Append") == 1
 //verif:call[skip-rollback-only-after-commit] rollback.(*R).Skip requires succeeded("Transaction.Commit")
 //verif:ensures[failure-keeps-rollback-armed] err != nil ==> !called("rollback.(*R).Skip")
@@ -32,6 +33,7 @@ package orchestrator
 // the undo re-applies the plugin and config the processor had BEFORE the update
 //verif:closure of (*ProcessorOrchestrator).Update calling ProcessorService.Update (err, p, ctx, proc, oldPlugin, oldConfig) (rerr)
 //verif:call[undo-restores-previous-plugin-and-config] ProcessorService.Update requires arg1 == deref(proc).ID && arg2 == deref(oldPlugin) && arg3 == deref(oldConfig)
+//verif:created[undo-captures-what-the-processor-had-before-the-update] requires succeeded("ProcessorService.Update") && deref(oldPlugin) == at_call("ProcessorService.Update", result_of("ProcessorService.Get", 0).Plugin) && deref(oldConfig) == at_call("ProcessorService.Update", result_of("ProcessorService.Get", 0).Config)
 
 //verif:func pipelineRunningErr(msg) (e)
 //verif:ensures e != nil
@@ -57,6 +59,8 @@ package orchestrator
 // connector is deleted, then its reference is removed, each with its undo registered,
 // and only then the transaction is committed.
 //verif:func (*ConnectorOrchestrator).Delete(c, ctx, id) (err)
+//verif:let conn = result_of("ConnectorService.Get", 0)
+//verif:let pl = result_of("PipelineService.Get", 0)
 //verif:call[only-api-provisioned-unreferenced-and-stopped] ConnectorService.Delete requires txnOpen() && succeeded("ConnectorService.Get") && conn.ProvisionedBy == ProvisionTypeAPI && len(conn.ProcessorIDs) == 0 && succeeded("PipelineService.Get") && result_of("pipeline.(*Instance).GetStatus", 0) != StatusRunning && arg1 == id
 //verif:call[reference-removed-after-delete-with-undo-registered] PipelineService.RemoveConnector requires txnOpen() && succeeded("ConnectorService.Delete") && count("rollback.(*R).Append") == 1 && arg1 == pl.ID && arg2 == id
 //verif:call[commit-after-both-steps-with-both-undos] Transaction.Commit requires succeeded("ConnectorService.Delete") && succeeded("PipelineService.RemoveConnector") && count("rollback.(*R).Append") == 2
@@ -72,6 +76,7 @@ package orchestrator
 
 // ---- ProcessorOrchestrator.Create / Delete --------------------------------------------
 //verif:func (*ProcessorOrchestrator).Create(p, ctx, plugin, parent, cfg, cond) (proc, err)
+//verif:let pl = result_of("(*ProcessorOrchestrator).getProcessorsPipeline", 0)
 //verif:call[only-api-provisioned-and-stopped] ProcessorService.Create requires txnOpen() && succeeded("(*ProcessorOrchestrator).getProcessorsPipeline") && pl.ProvisionedBy == ProvisionTypeAPI && result_of("pipeline.(*Instance).GetStatus", 0) != StatusRunning && arg2 == plugin && arg3 == parent && arg4 == cfg && arg6 == cond
 //verif:call[pipeline-reference-after-create-with-undo-registered] PipelineService.AddProcessor requires txnOpen() && succeeded("ProcessorService.Create") && count("rollback.(*R).Append") == 1 && parent.Type == ParentTypePipeline && arg1 == pl.ID && arg2 == result_of("ProcessorService.Create", 0).ID
 //verif:call[connector-reference-after-create-with-undo-registered] ConnectorService.AddProcessor requires txnOpen() && succeeded("ProcessorService.Create") && count("rollback.(*R).Append") == 1 && parent.Type == ParentTypeConnector && arg1 == parent.ID && arg2 == result_of("ProcessorService.Create", 0).ID
@@ -88,6 +93,8 @@ package orchestrator
 //verif:call[undo-removes-the-added-reference] ConnectorService.RemoveProcessor requires arg1 == deref(parent).ID && arg2 == deref(proc).ID
 
 //verif:func (*ProcessorOrchestrator).Delete(p, ctx, id) (err)
+//verif:let proc = result_of("ProcessorService.Get", 0)
+//verif:let pl = result_of("(*ProcessorOrchestrator).getProcessorsPipeline", 0)
 //verif:call[only-api-provisioned-and-stopped] ProcessorService.Delete requires txnOpen() && succeeded("ProcessorService.Get") && proc.ProvisionedBy == ProvisionTypeAPI && succeeded("(*ProcessorOrchestrator).getProcessorsPipeline") && result_of("pipeline.(*Instance).GetStatus", 0) != StatusRunning && arg1 == id
 //verif:call[pipeline-reference-removed-after-delete-with-undo-registered] PipelineService.RemoveProcessor requires txnOpen() && succeeded("ProcessorService.Delete") && count("rollback.(*R).Append") == 1 && proc.Parent.Type == ParentTypePipeline && arg1 == pl.ID && arg2 == proc.ID
 //verif:call[connector-reference-removed-after-delete-with-undo-registered] ConnectorService.RemoveProcessor requires txnOpen() && succeeded("ProcessorService.Delete") && count("rollback.(*R).Append") == 1 && proc.Parent.Type == ParentTypeConnector && arg1 == proc.Parent.ID && arg2 == proc.ID
@@ -111,11 +118,14 @@ package orchestrator
 
 // ---- PipelineOrchestrator: guards ----------------------------------------------------
 //verif:func (*PipelineOrchestrator).Update(po, ctx, id, cfg) (pl2, err)
+//verif:let pl = result_of("PipelineService.Get", 0)
 //verif:call[only-api-provisioned-and-stopped] PipelineService.Update requires succeeded("PipelineService.Get") && pl.ProvisionedBy == ProvisionTypeAPI && result_of("pipeline.(*Instance).GetStatus", 0) != StatusRunning && arg1 == pl.ID && arg2 == cfg
 //verif:func (*PipelineOrchestrator).UpdateDLQ(po, ctx, id, dlq) (pl2, err)
+//verif:let pl = result_of("PipelineService.Get", 0)
 //verif:call[only-api-provisioned-stopped-and-validated] PipelineService.UpdateDLQ requires succeeded("PipelineService.Get") && pl.ProvisionedBy == ProvisionTypeAPI && result_of("pipeline.(*Instance).GetStatus", 0) != StatusRunning && succeeded("(*ConnectorOrchestrator).Validate") && arg1 == id && arg2 == dlq
 //verif:call[dlq-plugin-validated-as-a-destination] (*ConnectorOrchestrator).Validate requires arg2 == TypeDestination && arg3 == dlq.Plugin && arg4.Settings == dlq.Settings
 //verif:func (*PipelineOrchestrator).Delete(po, ctx, id) (err)
+//verif:let pl = result_of("PipelineService.Get", 0)
 //verif:call[only-api-provisioned-stopped-and-empty] PipelineService.Delete requires succeeded("PipelineService.Get") && pl.ProvisionedBy == ProvisionTypeAPI && result_of("pipeline.(*Instance).GetStatus", 0) != StatusRunning && len(pl.ConnectorIDs) == 0 && len(pl.ProcessorIDs) == 0 && arg1 == pl.ID
 //verif:func invalidProcessorParentTypeErr(msg) (e)
 //verif:ensures e != nil
